@@ -30,6 +30,7 @@
 import P2P.Model.Rigid
 import P2P.Proofs.RigidLemmas
 import P2P.Props.C04
+import P2P.Proofs.RepairFitTable
 
 namespace P2P.Props.C05
 open P2P P2P.Geom P2P.Rigid P2P.Topology P2P.Proofs.Geom P2P.Proofs.Rigid P2P.Proofs.RigidTable
@@ -100,6 +101,47 @@ theorem hydrogen_stays_attached (base : ResDef) (hb : base ∈ bases) (ns cs : L
   refine ⟨r, hr, ?_⟩
   intro a b c e hd hp r2d small pos angle haxis
   exact (P2P.Props.C04.torsion_change_is_rigid r (fullAtoms r) _ _ hfull a b c e hd hp r2d small pos angle haxis).2
+
+/-! ### rebuilt heavy atoms: which atoms `repair_heavy` fits on (Model/RepairFit.lean) -/
+
+section repairfit
+open P2P.RepairFit P2P.Proofs.RepairFit
+
+/-- **Truncated side chains are rebuilt from local fits** (kernel table over this run's topology,
+every three-letter amino-acid definition inside a chain): when a side chain is cut off at `x`, the
+three atoms `x` is superposed on are pairwise at most two bonds apart in the template, so their
+mutual distances are fixed by bond lengths and bond angles alone and the fit does not depend on any
+torsion angle of the structure (with `placed_pair_exact`: an undistorted stub gives the template's
+bond length and angles exactly) — except for the atoms closing an aromatic ring, whose fit atoms lie
+in one planar ring. -/
+theorem truncated_rebuild_fits_local :
+    P2P.Proofs.RepairFit.bases.all (fun r => (sideHeavy r).all (fun x =>
+      fitLocal (midRef r) (truncatedAt (midRef r) x) x || ringClosers.contains (r.name, x))) = true :=
+  truncated_fits_local
+
+/-- the carbonyl O inside a chain is fitted on C, CA and the next residue's N (one planar unit);
+a missing leaf atom (one heavy neighbour) is always fitted locally -/
+theorem carbonyl_O_and_leaves_fit_local :
+    P2P.Proofs.RepairFit.bases.all (fun r =>
+      fitAtoms (midRef r) (onlyMissing (midRef r) (str "O")) (str "O") = [str "C", str "CA", str "N+1"]
+        && fitLocal (midRef r) (onlyMissing (midRef r) (str "O")) (str "O")) = true ∧
+    P2P.Proofs.RepairFit.bases.all (fun r => (leaves r).all (fun x =>
+      fitLocal (midRef r) (onlyMissing (midRef r) x) x)) = true :=
+  ⟨carbonyl_O_fit_local, leaf_fits_local⟩
+
+/-- **Refutation (known finding "fit spans a rotatable bond").** The property does NOT hold for an
+atom missing from the middle of a flexible chain: the amide N of every non-proline residue inside a
+chain is fitted on CA, C-1 and C, with C-1 and C three bonds apart across the rotatable N-CA bond;
+CG of lysine on CB, CD and CA, with CD and CA three bonds apart across CB-CG. The template's torsion
+is then imposed on three atoms that do not have it, and the rebuilt atom misses its bond lengths. -/
+theorem single_missing_middle_atom_refuted :
+    P2P.Proofs.RepairFit.bases.all (fun r => r.name = str "PRO" ||
+      (fitAtoms (midRef r) (onlyMissing (midRef r) (str "N")) (str "N") = [str "CA", str "C-1", str "C"]
+        && !within2 (midRef r) (str "C-1") (str "C"))) = true ∧
+    spanning.contains (str "LYS", str "CG") = true ∧ spanning.contains (str "GLU", str "CB") = true :=
+  ⟨backbone_N_fit_spans, middle_atom_fit_spans.1, middle_atom_fit_spans.2.1⟩
+
+end repairfit
 
 /-! ### non-vacuity -/
 example : d2 (⟨0, 0, 1⟩ : V3 ℝ) ⟨0, 0, 0⟩ ≠ 0 := by simp [d2, V3.dot, V3.sub]
